@@ -1,5 +1,9 @@
 """C16 - runs terminate with well-formed results and never hide a failed step."""
 import copy
+import os
+import pickle
+import signal
+import traceback
 import warnings
 
 from hypothesis import strategies as st
@@ -39,8 +43,14 @@ ASSUMPTIONS = [
     'finite numbers: any bool/int/float dtype is accepted (link status is an integer table); object dtype is not',
     '"a warning": at least one warning whose text mentions convergence or trials (other warnings, e.g. pump '
     'maximum flow, do not count); error_code value 0 is the one documented in the run_sim docstring',
-    'terminates = at most (steps+events+4)*(trials+2) solver calls (doubled with a backup solver), events = number of '
-    'time controls + 4 per tank, and the 30 s wall limit (over the limit = inconclusive)',
+    'terminates = never more than trials+2 solver calls (doubled with a backup solver) at one simulation time, at '
+    'most (duration+2) times that in total (step times are whole seconds; tanks that open and close every few '
+    'seconds legitimately produce many partial steps), and the 30 s wall limit (over the limit = inconclusive)',
+    'the harness pins BLAS/OpenMP to one thread (vcheck does); the two runs of a case are forked from one parent '
+    'state so that they are bit-identical up to the fault; a prefix mismatch that does not reproduce in two '
+    'repetitions is reported as inconclusive',
+    'scipy.optimize.fsolve (documented as an alternative solver) is used as primary solver in 1/8 of the cases and as '
+    'backup solver in 2/9; rows after a step solved by another kind of solver than the primary are not compared',
 ]
 TOLERANCES = {'prefix_equality': '1e-9*max(1,|reference|) (statement of the task: same steps; WNTR itself is '
                                  'deterministic up to ~1e-12 from the variable ordering of the C++ evaluator)'}
@@ -79,10 +89,11 @@ def _case(draw, tier):
                   'm': draw(st.integers(1, 3)), 'dem': draw(st.sampled_from([0.0, 0.0005, 0.001]))}
     kind = draw(st.sampled_from(['none', 'inject', 'inject', 'inject', 'maxiter']))
     plan = {'kind': kind,
+            'solver': 'newton' if kind == 'maxiter' else draw(st.sampled_from(['newton'] * 7 + ['fsolve'])),
             'mode': draw(st.sampled_from(['abs', 'abs', 'resolve', 'event', 'last'])),
             'k': draw(st.integers(0, 60)),
             'msg': draw(st.integers(0, 2)), 'backup_msg': draw(st.integers(0, 2)),
-            'backup': draw(st.sampled_from(['none', 'none', 'ok', 'fail'])),
+            'backup': draw(st.sampled_from(['none', 'none', 'none', 'ok', 'ok', 'fail', 'fail', 'fsolve', 'fsolve_jac'])),
             'maxiter': draw(st.sampled_from([1, 2, 3, 5, 8, 0])),
             'conv': draw(st.booleans()),
             'trials': draw(st.sampled_from([0, 1, 2, 3, REF_TRIALS]))}
@@ -120,13 +131,15 @@ def enumerate_cases(tier='quick'):
             for backup in ('none', 'ok', 'fail'):
                 for conv in (False, True):
                     yield {'net': net, 'gadget': gadget,
-                           'plan': {'kind': 'inject', 'mode': 'abs', 'k': k, 'msg': k % 3, 'backup_msg': (k + 1) % 3,
+                           'plan': {'kind': 'inject', 'solver': 'newton', 'mode': 'abs', 'k': k, 'msg': k % 3,
+                                    'backup_msg': (k + 1) % 3,
                                     'backup': backup, 'maxiter': 3, 'conv': conv, 'trials': 3}}
         for trials in (0, 1, 2, 3):
             for gk in ('chain', 'osc'):
                 for conv in (False, True):
                     yield {'net': net, 'gadget': dict(gadget, kind=gk),
-                           'plan': {'kind': 'none', 'mode': 'abs', 'k': 0, 'msg': 0, 'backup_msg': 0, 'backup': 'none',
+                           'plan': {'kind': 'none', 'solver': 'newton', 'mode': 'abs', 'k': 0, 'msg': 0,
+                                    'backup_msg': 0, 'backup': 'none',
                                     'maxiter': 3, 'conv': conv, 'trials': trials}}
 
 
@@ -188,31 +201,44 @@ class _Abort(BaseException):
     """raised by the call wrapper when the solver-call budget is exhausted"""
 
 
-class Run(object):
-    __slots__ = ('log', 'exception', 'warnings', 'results', 'aborted', 'trials', 'conv', 'backup', 'cap')
-
-
-def simulate(spec, trials, conv, maxiter=3000, backup=False, backup_maxiter=3000, inject_at=None, msg='',
-             backup_ok=True, backup_msg='', cap=100000):
-    """Run WNTRSimulator on the spec with wntr.sim.core._solver_helper wrapped (restored afterwards)."""
+def simulate(spec, cfg, inject_at):
+    """Run WNTRSimulator on the spec with wntr.sim.core._solver_helper wrapped (restored afterwards).
+    cfg = config(...) (fixed shape); inject_at = 1-based primary call to fail (0 = never).
+    -> plain-data record of the run (solver-call log, exception, warnings, error_code, tables)."""
+    (trials, conv, primary, maxiter, backup, backup_kind, backup_maxiter, inject, msg, backup_ok, backup_msg,
+     cap) = cfg
+    if not inject:
+        inject_at = 0
+    import scipy.optimize
     import wntr
     import wntr.sim.core as core
     from wntr.sim.solvers import NewtonSolver, SolverStatus
+    solvers = {'newton': NewtonSolver, 'fsolve': scipy.optimize.fsolve, 'fsolve_jac': scipy.optimize.fsolve}
     sp = dict(spec)
     sp['opts'] = dict(spec['opts'], trials=trials)
-    wn = S.build_wn(sp)
-    run = Run()
-    run.log, run.exception, run.results, run.aborted, run.warnings = [], None, None, False, []
-    run.trials, run.conv, run.backup, run.cap = trials, conv, backup, cap
+    run = {'log': [], 'exc': None, 'aborted': False, 'warnings': [], 'trials': trials, 'conv': conv,
+           'backup': backup, 'cap': cap, 'returned': False, 'build_error': None}
+    try:
+        wn = S.build_wn(sp)
+    except Exception as e:
+        run['build_error'] = (exc_bucket(e, 'build'), repr(e))
+        return run
+    log = run['log']
     real = core._solver_helper
     state = {'primary': 0, 'hit': False}
 
+    per_step = (trials + 2) * (2 if backup else 1)
+
     def wrapped(model, solver, opts):
-        if len(run.log) >= cap:
+        if len(log) >= cap:
             raise _Abort()
-        role = 'backup' if 'BT_MAXITER' in opts else 'primary'
-        e = {'t': float(wn.sim_time), 'role': role, 'inj': False, 'status': None}
-        run.log.append(e)
+        if len(log) >= per_step and log[-per_step]['t'] == float(wn.sim_time):
+            run['same_time_calls'] = per_step + 1
+            raise _Abort()
+        role = 'backup' if ('BT_MAXITER' in opts or 'xtol' in opts) else 'primary'
+        e = {'t': float(wn.sim_time), 'role': role, 'inj': False, 'status': None,
+             'solver': backup_kind if role == 'backup' else primary}
+        log.append(e)
         if role == 'primary':
             state['primary'] += 1
             state['hit'] = state['primary'] == inject_at
@@ -228,27 +254,176 @@ def simulate(spec, trials, conv, maxiter=3000, backup=False, backup_maxiter=3000
         e['status'] = int(out[0])
         return out
 
-    kw = {'solver_options': {'MAXITER': maxiter}, 'convergence_error': conv, 'HW_approx': spec['opts']['hw_approx']}
-    if backup:
-        kw['backup_solver'] = NewtonSolver
-        kw['backup_solver_options'] = {'MAXITER': backup_maxiter, 'BT_MAXITER': 100}   # 100 = the default value
+    # the same keyword shape with and without a backup solver (keeps the two forked runs allocation-identical)
+    # (the backup options carry a key the primary options never have: that is how the wrapper tells the calls apart;
+    #  BT_MAXITER=100 and xtol=1.49012e-08 are the default values of NewtonSolver and scipy.optimize.fsolve)
+    if backup_kind == 'newton':
+        bopts = {'MAXITER': backup_maxiter, 'BT_MAXITER': 100}
+    elif backup_kind == 'fsolve':
+        bopts = {'xtol': 1.49012e-08}
+    else:
+        bopts = {'xtol': 1.49012e-08, 'use_jac': True}
+    kw = {'solver': solvers[primary], 'solver_options': {'MAXITER': maxiter} if primary == 'newton' else {},
+          'convergence_error': conv, 'HW_approx': spec['opts']['hw_approx'],
+          'backup_solver': solvers[backup_kind] if backup else None, 'backup_solver_options': bopts}
     sim = wntr.sim.WNTRSimulator(wn)
+    res = None
     core._solver_helper = wrapped
     try:
         with warnings.catch_warnings(record=True) as w:
             warnings.simplefilter('always')
             try:
-                run.results = sim.run_sim(**kw)
+                res = sim.run_sim(**kw)
+                run['returned'] = True
             except CaseTimeout:
                 raise
             except _Abort:
-                run.aborted = True
+                run['aborted'] = True
             except Exception as exc:
-                run.exception = exc
-            run.warnings = [str(x.message) for x in w]
+                run['exc'] = {'type': type(exc).__name__, 'text': str(exc), 'runtime': isinstance(exc, RuntimeError),
+                              'bucket': exc_bucket(exc, 'raises')}
+            run['warnings'] = [str(x.message) for x in w]
     finally:
         core._solver_helper = real
+    if run['returned']:
+        code = getattr(res, 'error_code', None)
+        run['code_none'] = code is None
+        run['code_repr'] = repr(code)
+        try:
+            run['code_int'] = None if code is None else int(code)
+        except Exception:
+            run['code_int'] = None
+        for grp in ('node', 'link'):
+            d = getattr(res, grp, None)
+            if not isinstance(d, dict):
+                run[grp] = type(d).__name__
+                continue
+            out = {}
+            for key in d:
+                df = d[key]
+                out[str(key)] = ([x.item() if hasattr(x, 'item') else x for x in df.index],
+                                 [str(c) for c in df.columns], df.values)
+            run[grp] = out
     return run
+
+
+# Two runs of one model in one process differ by solver noise (the C++ evaluator orders variables by address; on
+# ill-conditioned steps the difference reaches 1e-5 in a flow).  Children forked from the same parent state build
+# the model at the same addresses and are bit-identical up to the fault, so the prefix comparison is exact.
+def config(trials, conv, primary='newton', maxiter=3000, backup=False, backup_kind='newton', backup_maxiter=3000,
+           inject=False, msg='', backup_ok=True, backup_msg='', cap=100000):
+    return (trials, conv, primary, maxiter, backup, backup_kind, backup_maxiter, inject, msg, backup_ok, backup_msg,
+            cap)
+
+
+K_OFFSET = 1000000
+CRASH_SIGNALS = (signal.SIGSEGV, signal.SIGABRT, signal.SIGBUS, signal.SIGFPE, signal.SIGILL)
+
+
+def _child(spec, cfg, r, w, gr, gw):
+    code = 0
+    try:
+        os.close(r)
+        os.close(gw)
+        signal.signal(signal.SIGALRM, signal.SIG_DFL)
+        signal.setitimer(signal.ITIMER_REAL, 6 * CASE_TIMEOUT)     # an orphan never lives longer than this
+        try:
+            k = int(os.read(gr, 64).decode() or K_OFFSET) - K_OFFSET
+            payload = simulate(spec, cfg, k)
+        except BaseException:
+            payload = {'harness_error': traceback.format_exc()}
+        data = pickle.dumps(payload, 2)
+        view = memoryview(data)
+        while len(view):
+            n = os.write(w, view[:1 << 16])
+            view = view[n:]
+    except BaseException:
+        code = 3
+    finally:
+        os._exit(code)
+
+
+def _spawn_pair(spec, cfg_a, cfg_b, handles):
+    """fork run A and run B back to back from one parent state; each waits for its go message"""
+    ha = {'pid': None, 'r': None, 'gw': None}
+    hb = {'pid': None, 'r': None, 'gw': None}
+    handles.append(ha)
+    handles.append(hb)
+    ra, wa = os.pipe()
+    gra, gwa = os.pipe()
+    ha.update(r=ra, gw=gwa)
+    if cfg_b is not None:
+        rb, wb = os.pipe()
+        grb, gwb = os.pipe()
+        hb.update(r=rb, gw=gwb)
+    pid = os.fork()
+    if pid == 0:
+        pad = int('1234567')   # noqa: F841  mirrors the pid object that exists in the lineage of run B
+        _child(spec, cfg_a, ra, wa, gra, gwa)
+    ha['pid'] = pid
+    if cfg_b is not None:
+        pid = os.fork()
+        if pid == 0:
+            os.close(ra)
+            os.close(gwa)
+            os.close(wa)
+            os.close(gra)
+            _child(spec, cfg_b, rb, wb, grb, gwb)
+        hb['pid'] = pid
+        os.close(wb)
+        os.close(grb)
+    os.close(wa)
+    os.close(gra)
+    return ha, hb
+
+
+def _go(h, k=0):
+    os.write(h['gw'], b'%d' % (K_OFFSET + k))
+    os.close(h['gw'])
+    h['gw'] = None
+
+
+def _collect(h):
+    chunks = []
+    while True:
+        b = os.read(h['r'], 1 << 16)
+        if not b:
+            break
+        chunks.append(b)
+    os.close(h['r'])
+    h['r'] = None
+    _pid, status = os.waitpid(h['pid'], 0)
+    h['pid'] = None
+    if os.WIFSIGNALED(status):
+        return {'crashed': os.WTERMSIG(status)}
+    data = b''.join(chunks)
+    if not data:
+        return {'harness_error': 'child produced no data (exit status %r)' % (status,)}
+    out = pickle.loads(data)
+    if 'harness_error' in out:
+        raise RuntimeError('C16 harness error in the forked run:\n' + out['harness_error'])
+    return out
+
+
+def _reap(handles):
+    for h in handles:
+        for k in ('gw', 'r'):
+            if h.get(k) is not None:
+                try:
+                    os.close(h[k])
+                except OSError:
+                    pass
+                h[k] = None
+        if h.get('pid'):
+            try:
+                os.kill(h['pid'], signal.SIGKILL)
+            except OSError:
+                pass
+            try:
+                os.waitpid(h['pid'], 0)
+            except OSError:
+                pass
+            h['pid'] = None
 
 
 def steps_of(log):
@@ -261,13 +436,14 @@ def steps_of(log):
         stp = steps[-1]
         if e['role'] == 'primary':
             stp['decisions'].append({'call': i, 'ok': e['status'] == 1, 'inj': e['inj'], 'backup': False,
-                                     'raised': e['status'] is None})
+                                     'raised': e['status'] is None, 'solver': e['solver'], 'primary': e['solver']})
         elif stp['decisions']:
             d = stp['decisions'][-1]
-            d.update(ok=e['status'] == 1, backup=True, inj=d['inj'] and e['inj'], raised=e['status'] is None, call=i)
+            d.update(ok=e['status'] == 1, backup=True, inj=d['inj'] and e['inj'], raised=e['status'] is None, call=i,
+                     solver=e['solver'])
         else:   # a backup call that does not follow a primary call of the same step
             stp['decisions'].append({'call': i, 'ok': e['status'] == 1, 'inj': e['inj'], 'backup': True,
-                                     'raised': e['status'] is None})
+                                     'raised': e['status'] is None, 'solver': e['solver'], 'primary': None})
     return steps
 
 
@@ -278,33 +454,40 @@ def _grid_last(spec):
 
 
 def call_cap(spec, trials, backup):
-    o = spec['opts']
-    nsteps = o['duration'] // o['hyd'] + 1
-    events = sum(1 for c in spec.get('controls', []) if c['kind'] == 'time') + 4 * len(spec['tanks'])
-    return (nsteps + events + 4) * (trials + 2) * (2 if backup else 1)
+    # step times are whole seconds: at most duration+1 steps, each with at most trials+2 (x2 with a backup) calls
+    return (spec['opts']['duration'] + 2) * (trials + 2) * (2 if backup else 1)
 
 
 def judge(run, spec, info):
-    """Oracle for one run. -> None | (bucket, detail).  Fills info: failed, kind, t_fail, index, tables, tags."""
+    """Oracle for one run (plain-data record from simulate). -> None | (bucket, detail).
+    Fills info: failed, kind, t_fail, call_fail, index, tables, tags."""
     import numpy as np
     o = spec['opts']
     tags = info.setdefault('tags', [])
-    if run.aborted:
+    log = run['log']
+    if run.get('crashed'):
+        return ('termination/process_died', 'the process running run_sim died of signal %d' % run['crashed'])
+    if run['aborted']:
+        if run.get('same_time_calls'):
+            return ('termination/solver_call_bound', 'trials=%s, backup solver %s: solver call number %d at the same '
+                    'simulation time t=%s (the run does not advance and is not stopped): %r ...'
+                    % (run['trials'], run['backup'], run['same_time_calls'], log[-1]['t'],
+                       [(e['t'], e['role'], e['status']) for e in log[-4:]]))
         return ('termination/solver_call_bound', 'more than %d solver calls (duration %s, hyd %s, trials %s): %r ...'
-                % (run.cap, o['duration'], o['hyd'], run.trials, [(e['t'], e['role'], e['status']) for e in run.log[-6:]]))
-    steps = steps_of(run.log)
+                % (run['cap'], o['duration'], o['hyd'], run['trials'], [(e['t'], e['role'], e['status']) for e in log[-6:]]))
+    steps = steps_of(log)
     decisions = [(s, d) for s in steps for d in s['decisions']]
     info['steps'] = steps
     info['failed'] = False
     info['t_fail'] = None
+    exc = run['exc']
+    how = ('raised %s(%r)' % (exc['type'], exc['text'][:200])) if exc else 'returned error_code=%s' % run.get('code_repr')
     # a failed solve must be the last thing the run does
     for n, (s, d) in enumerate(decisions):
         if not d['ok'] and not d['raised'] and n != len(decisions) - 1:
             return ('hidden_failure/run_continued_after_failed_solve',
-                    'solver call %d at t=%s returned error (backup used: %s) but %d more solve(s) followed; run %s'
-                    % (d['call'], s['t'], d['backup'], len(decisions) - 1 - n,
-                       'raised %r' % run.exception if run.exception is not None else 'returned error_code=%r'
-                       % getattr(run.results, 'error_code', None)))
+                    'solver call %d at t=%s returned error (backup used: %s) but %d more solve(s) followed; run_sim %s'
+                    % (d['call'], s['t'], d['backup'], len(decisions) - 1 - n, how))
     solver_failed = bool(decisions) and not decisions[-1][1]['ok'] and not decisions[-1][1]['raised']
     last = decisions[-1] if decisions else None
     if solver_failed:
@@ -321,62 +504,69 @@ def judge(run, spec, info):
             tags.append('backup_failed_too')
     if any(d['ok'] and d['backup'] for _s, d in decisions):
         tags.append('backup_recovered_step')
-    exc = run.exception
+    # first step solved by another kind of solver than the primary one: later rows legitimately differ from a run
+    # solved by the primary solver alone (different stopping rule)
+    info['t_other_solver'] = min([s['t'] for s, d in decisions if d['ok'] and d['backup'] and d['solver'] != d['primary']]
+                                 or [float('inf')])
+    if solver_failed and not last[1]['inj']:
+        text = ' '.join(run['warnings']) + (run['exc']['text'] if run['exc'] else '')
+        for key, tag in (('singular', 'genuine:singular_jacobian'), ('Line search', 'genuine:line_search'),
+                         ('maximum number of iterations', 'genuine:iteration_limit')):
+            if key in text:
+                tags.append(tag)
+
+    def flag(kind):
+        info['kind'] = kind
+        info['failed'] = True
+        info['t_fail'] = steps[-1]['t'] if steps else None
+        info['call_fail'] = last[1]['call'] if last else None
+        if kind == 'trials':
+            tags.append('failure:trial_limit')
+            if steps and steps[-1]['t'] % o['hyd'] != 0:
+                tags.append('fail_at_partial_step')
+
     if exc is not None:
-        text = str(exc)
-        if not isinstance(exc, RuntimeError):
-            return (exc_bucket(exc, 'raises'), 'run_sim raised %s: %s (convergence_error=%s, solver failed: %s)'
-                    % (type(exc).__name__, text[:300], run.conv, solver_failed))
+        text = exc['text']
         low = text.lower()
+        if not exc['runtime']:
+            return (exc['bucket'], 'run_sim raised %s: %s (convergence_error=%s, a solver call had failed: %s)'
+                    % (exc['type'], text[:300], run['conv'], solver_failed))
         if not ('converge' in low or 'trial' in low):
-            return (exc_bucket(exc, 'raises'), 'run_sim raised RuntimeError %r that does not report a failed step'
-                    % text[:300])
-        if not run.conv:
+            return (exc['bucket'], 'run_sim raised RuntimeError %r that does not report a failed step' % text[:300])
+        if not run['conv']:
             return ('failure/raised_although_convergence_error_false',
                     'convergence_error=False but run_sim raised RuntimeError(%r)' % text[:300])
-        if not solver_failed:
-            if 'trial' not in low:
-                return ('failure/reported_without_failed_solve', 'RuntimeError(%r) but the last solver call converged'
-                        % text[:300])
-            tags.append('failure:trial_limit')
-            info['kind'] = 'trials'
-        else:
-            info['kind'] = 'solver'
-        info['failed'] = True
-        info['t_fail'] = steps[-1]['t'] if steps else None
-        info['call_fail'] = last[1]['call'] if last else None
+        if not solver_failed and 'trial' not in low:
+            return ('failure/reported_without_failed_solve', 'RuntimeError(%r) but the last solver call converged'
+                    % text[:300])
+        flag('solver' if solver_failed else 'trials')
         tags.append('outcome:RuntimeError')
         return None
-    res = run.results
-    code = res.error_code
-    wtext = [m for m in run.warnings if ('converge' in m.lower() or 'trial' in m.lower())]
-    if solver_failed and run.conv:
+    code_none = run['code_none']
+    wtext = [m for m in run['warnings'] if ('converge' in m.lower() or 'trial' in m.lower())]
+    if code_none and wtext:
+        return ('failure/error_code_not_set', 'run_sim warned %r but returned error_code=None' % wtext[:2])
+    if solver_failed and run['conv']:
         return ('failure/not_raised_with_convergence_error',
-                'convergence_error=True, solver call %d at t=%s failed, but run_sim returned (error_code=%r)'
-                % (last[1]['call'], last[0]['t'], code))
-    if solver_failed and code is None:
+                'convergence_error=True, solver call %d at t=%s failed, but run_sim returned (error_code=%s)'
+                % (last[1]['call'], last[0]['t'], run['code_repr']))
+    if solver_failed and code_none:
         return ('failure/error_code_not_set', 'solver call %d at t=%s failed, run_sim returned error_code=None; warnings %r'
-                % (last[1]['call'], last[0]['t'], run.warnings[:3]))
-    if code is not None:
-        if run.conv:
+                % (last[1]['call'], last[0]['t'], run['warnings'][:3]))
+    if not code_none:
+        if run['conv']:
             return ('failure/not_raised_with_convergence_error',
-                    'convergence_error=True but run_sim returned error_code=%r; warnings %r' % (code, run.warnings[:3]))
+                    'convergence_error=True but run_sim returned error_code=%s; warnings %r'
+                    % (run['code_repr'], run['warnings'][:3]))
         if not wtext:
-            return ('failure/no_warning', 'error_code=%r but no warning about convergence/trials was issued: %r'
-                    % (code, run.warnings[:5]))
-        if code != 0:
-            return ('failure/error_code_value', 'error_code=%r, documented value is 0' % (code,))
-        if not solver_failed:
-            if not any('trial' in m.lower() for m in wtext):
-                return ('failure/reported_without_failed_solve',
-                        'error_code=%r, warnings %r, but the last solver call converged' % (code, wtext[:3]))
-            tags.append('failure:trial_limit')
-            info['kind'] = 'trials'
-        else:
-            info['kind'] = 'solver'
-        info['failed'] = True
-        info['t_fail'] = steps[-1]['t'] if steps else None
-        info['call_fail'] = last[1]['call'] if last else None
+            return ('failure/no_warning', 'error_code=%s but no warning about convergence/trials was issued: %r'
+                    % (run['code_repr'], run['warnings'][:5]))
+        if run['code_int'] != 0:
+            return ('failure/error_code_value', 'error_code=%s, documented value is 0' % run['code_repr'])
+        if not solver_failed and not any('trial' in m.lower() for m in wtext):
+            return ('failure/reported_without_failed_solve',
+                    'error_code=%s, warnings %r, but the last solver call converged' % (run['code_repr'], wtext[:3]))
+        flag('solver' if solver_failed else 'trials')
         tags.append('outcome:error_code')
         completed = steps[:-1]
     else:
@@ -384,28 +574,27 @@ def judge(run, spec, info):
         completed = steps
         for s in steps:
             nok = sum(1 for d in s['decisions'] if d['ok'])
-            if nok > run.trials + 2:
+            if nok > run['trials'] + 2:
                 return ('hidden_failure/trial_limit_not_enforced',
-                        'step t=%s was solved %d times with trials=%d and the run was not flagged' % (s['t'], nok, run.trials))
+                        'step t=%s was solved %d times with trials=%d and the run was not flagged'
+                        % (s['t'], nok, run['trials']))
     rep = o['rep']
     expected = [int(s['t']) for s in completed if rep == 'ALL' or int(s['t']) % rep == 0]
     # ---- tables
     tables = {}
-    for grp, want, names in (('node', NODE_TABLES, S.node_names(spec)), ('link', LINK_TABLES,
-                                                                         [l[0] for l in S.links_of(spec)])):
-        d = getattr(res, grp, None)
+    for grp, want, names in (('node', NODE_TABLES, S.node_names(spec)),
+                             ('link', LINK_TABLES, [l[0] for l in S.links_of(spec)])):
+        d = run.get(grp)
         if not isinstance(d, dict):
-            return ('tables/%s_missing' % grp, 'results.%s is %r' % (grp, type(d).__name__))
+            return ('tables/%s_missing' % grp, 'results.%s is %r' % (grp, d))
         for key in want:
             if key not in d:
                 return ('tables/%s_missing' % grp, 'results.%s has no table %r (has %r)' % (grp, key, sorted(d)))
         for key in sorted(d):
-            df = d[key]
-            idx = [x for x in df.index]
-            cols = [str(c) for c in df.columns]
+            idx, cols, vals = d[key]
             if sorted(cols) != sorted(names):
-                return ('columns/%s' % grp, '%s[%r]: columns %r, model elements %r (rows %d)' % (grp, key, cols, names, len(idx)))
-            vals = df.values
+                return ('columns/%s' % grp, '%s[%r]: columns %r, model elements %r (rows %d)'
+                        % (grp, key, cols, names, len(idx)))
             if vals.dtype.kind not in 'fiub':
                 return ('values/non_numeric_dtype', '%s[%r] has dtype %s' % (grp, key, vals.dtype))
             if vals.size and not np.isfinite(vals.astype(float)).all():
@@ -427,9 +616,9 @@ def judge(run, spec, info):
         extra = [t for t in first if t not in expected]
         missing = [t for t in expected if t not in first]
         what = 'unsolved_or_failed_step_reported' if extra else 'solved_step_missing'
-        return ('index/%s' % what, 'report step %s: index %r, steps completed before the end/failure %r (failing step t=%s); '
-                'extra %r missing %r' % (rep, first[-8:], expected[-8:], info['t_fail'], extra[:5], missing[:5]))
-    if code is None:
+        return ('index/%s' % what, 'report step %s: index %r, steps completed before the end/failure %r (failing step '
+                't=%s); extra %r missing %r' % (rep, first[-8:], expected[-8:], info['t_fail'], extra[:5], missing[:5]))
+    if code_none:
         want_last = _grid_last(spec)
         if not first or first[-1] != want_last:
             return ('complete_run/last_row', 'error_code None, duration %s, report %s, hyd %s: last index %r, expected %s'
@@ -444,7 +633,7 @@ def compare_prefix(info, ref, spec):
     import numpy as np
     if 'tables' not in info or 'tables' not in ref:
         return None
-    limit = float('inf')
+    limit = min(info['t_other_solver'], ref['t_other_solver'])
     if info['failed']:
         limit = min(limit, info['t_fail'])
     if ref['failed']:
@@ -492,60 +681,91 @@ def _resolve_k(plan, ref_log, hyd):
 
 
 def check(case):
+    out = _once(case)
+    # A prefix mismatch must be reproducible: the two forked runs are bit-identical up to the fault unless the
+    # numerical libraries are multi-threaded (the harness pins them to one thread); a defect reproduces every time.
+    n = 0
+    while out['status'] == 'fail' and out['bucket'].startswith('prefix/') and n < 2:
+        again = _once(case)
+        n += 1
+        if again['status'] != 'fail' or again['bucket'] != out['bucket']:
+            return inconclusive('prefix mismatch not reproducible (solver noise between two runs of one model)',
+                                out.get('tags', ()))
+    return out
+
+
+def _once(case):
+    import wntr.sim.core  # noqa: F401  (imported in the parent so that the forked runs do not pay for it)
     plan, g = case['plan'], case['gadget']
     spec = with_gadget(case['net'], g)
     o = spec['opts']
-    tags = netgen.features(case['net'])
-    tags = [t for t in tags if not t.startswith(('hw:', 'pumpcurve:'))]
+    tags = [t for t in netgen.features(case['net']) if not t.startswith(('hw:', 'pumpcurve:'))]
     tags += ['gadget:%s' % (g['kind'] if g else 'none'), 'plan:%s' % plan['kind'], 'conv_error:%s' % plan['conv'],
              'trials:%d' % plan['trials'], 'report:%s' % ('ALL' if o['rep'] == 'ALL' else 'x%d' % (o['rep'] // o['hyd']))]
     if g and g['T'] % o['hyd'] != 0 and g['T'] <= o['duration']:
         tags.append('gadget_off_grid')
-    try:
-        ref_run = simulate(spec, REF_TRIALS, False, cap=call_cap(spec, REF_TRIALS, False))
-    except CaseTimeout:
-        raise
-    except Exception as e:
-        return fail(exc_bucket(e, 'build'), 'building the model raised %r' % e, tags)
-    ref = {'tags': []}
-    bad = judge(ref_run, spec, ref)
-    if bad:
-        return fail(bad[0], '[fault-free run, trials=%d] %s' % (REF_TRIALS, bad[1]), tags + ['in:reference_run'] + ref['tags'])
-    tags += ['ref:' + t for t in ref['tags'] if t.startswith(('outcome:', 'failure:'))]
-    nontrivial = False
-    if not ref['failed'] and len(ref.get('index', ())) >= 2:
-        nontrivial = True
-    if ref['failed'] and (ref.get('kind') == 'trials' or (ref.get('call_fail') or 0) >= 1):
-        nontrivial = True
-    if plan['kind'] == 'none' and plan['trials'] == REF_TRIALS and not plan['conv']:
-        return passed(nontrivial, tags + ref['tags'])
-    # ---- the faulted run
+    primary = plan.get('solver', 'newton') if plan['kind'] != 'maxiter' else 'newton'
+    single = plan['kind'] == 'none' and plan['trials'] == REF_TRIALS and not plan['conv'] and plan['backup'] == 'none'
     backup = plan['backup'] != 'none'
-    kw = {'backup': backup}
+    bkind = plan['backup'] if plan['backup'] in ('fsolve', 'fsolve_jac') else 'newton'
+    cap = call_cap(spec, plan['trials'], backup)
+    common = {'primary': primary, 'backup': backup, 'backup_kind': bkind, 'cap': cap}
     if plan['kind'] == 'inject':
-        kw.update(inject_at=_resolve_k(plan, ref_run.log, o['hyd']), msg=MSGS[plan['msg']],
-                  backup_ok=plan['backup'] == 'ok', backup_msg=MSGS[plan['backup_msg']])
+        cfg = config(plan['trials'], plan['conv'], inject=True, msg=MSGS[plan['msg']],
+                     backup_ok=plan['backup'] != 'fail', backup_msg=MSGS[plan['backup_msg']], **common)
         tags.append('msg:%s' % MSGS[plan['msg']].split()[0])
     elif plan['kind'] == 'maxiter':
-        kw.update(maxiter=plan['maxiter'], backup_maxiter=3000 if plan['backup'] == 'ok' else plan['maxiter'])
+        cfg = config(plan['trials'], plan['conv'], maxiter=plan['maxiter'],
+                     backup_maxiter=plan['maxiter'] if plan['backup'] == 'fail' else 3000, **common)
         tags.append('maxiter:%d' % plan['maxiter'])
+    else:
+        cfg = config(plan['trials'], plan['conv'], **common)
+    tags.append('solver:%s' % primary)
     if backup:
         tags.append('backup:%s' % plan['backup'])
-    run = simulate(spec, plan['trials'], plan['conv'], cap=call_cap(spec, plan['trials'], backup), **kw)
+    ref_cfg = config(REF_TRIALS, False, primary=primary, backup=False, backup_kind=bkind,
+                     cap=call_cap(spec, REF_TRIALS, False))
+    handles = []
+    try:
+        # both runs are forked from one parent state before either starts (see _spawn_pair)
+        ha, hb = _spawn_pair(spec, ref_cfg, None if single else cfg, handles)
+        _go(ha)
+        ref_run = _collect(ha)
+        if ref_run.get('crashed') and ref_run['crashed'] not in CRASH_SIGNALS:
+            return inconclusive('forked run killed by signal %d' % ref_run['crashed'], tags)
+        if ref_run.get('build_error'):
+            return fail(ref_run['build_error'][0], 'building the model raised %s' % ref_run['build_error'][1], tags)
+        ref = {'tags': []}
+        bad = judge(ref_run, spec, ref)
+        if bad:
+            return fail(bad[0], '[run without fault plan, trials=%d] %s' % (REF_TRIALS, bad[1]),
+                        tags + ['in:reference_run'] + ref['tags'])
+        if single:
+            tags += ref['tags']
+            return passed(_nontrivial(ref), tags)
+        tags += ['ref:' + t for t in ref['tags'] if t.startswith(('outcome:', 'failure:', 'genuine:', 'failing_call:'))]
+        _go(hb, _resolve_k(plan, ref_run['log'], o['hyd']))
+        run = _collect(hb)
+        if run.get('crashed') and run['crashed'] not in CRASH_SIGNALS:
+            return inconclusive('forked run killed by signal %d' % run['crashed'], tags)
+    finally:
+        _reap(handles)
     info = {'tags': []}
     bad = judge(run, spec, info)
     tags += info['tags']
     if bad:
         return fail(bad[0], bad[1], tags)
-    if plan['kind'] == 'inject' and not any(e['inj'] for e in run.log):
+    if plan['kind'] == 'inject' and not any(e['inj'] for e in run['log']):
         tags.append('injection_point_not_reached')
     bad = compare_prefix(info, ref, spec)
     if bad:
         return fail(bad[0], bad[1], tags)
     if info.get('compared_rows'):
         tags.append('prefix_rows:%s' % ('1' if info['compared_rows'] == 1 else '2+'))
+    return passed(_nontrivial(info) or _nontrivial(ref), tags)
+
+
+def _nontrivial(info):
     if info['failed']:
-        nontrivial = info.get('kind') == 'trials' or (info.get('call_fail') or 0) >= 1
-    else:
-        nontrivial = len(info.get('index', ())) >= 2
-    return passed(nontrivial, tags)
+        return info.get('kind') == 'trials' or (info.get('call_fail') or 0) >= 1
+    return len(info.get('index', ())) >= 2
